@@ -167,6 +167,147 @@ theorem C09_checkpoint_power_loss_bytes (so : StrictOrder kind.lt) (hH : Hash32 
   rw [hM] at h2; injection h2 with h2
   exact ⟨a, h1, h3, h2.symm⟩
 
+/-- the settings gate's events never touch a WAL file -/
+theorem settingsGate_clean (cfg : Config) (d : Disk) (e1 : List Ev) (pre : Bool)
+    (h : settingsGate cfg d = .ok (e1, pre)) : ∀ e ∈ e1, e.walClean = true := by
+  unfold settingsGate at h
+  split at h
+  · split at h
+    · cases h
+    · split at h
+      · cases h
+      · split at h
+        · cases h
+        · injection h with h; injection h with h1 _; subst h1; simp
+  · injection h with h; injection h with h1 _; subst h1
+    intro e he
+    simp only [List.mem_append, List.mem_cons, List.not_mem_nil, or_false] at he
+    rcases he with he | he
+    · split at he
+      · unfold preCreateEvents at he
+        split at he
+        · cases he
+        · simp only [List.mem_singleton] at he; subst he; rfl
+      · cases he
+    · rcases he with he | he | he | he <;> subst he <;> rfl
+
+/-- **C09 (bytes), open.** Power loss at any cut of `open` itself (settings, replay, creation of the
+    next segment file, after-replay checkpoint), started on a crash image whose WAL files are
+    fully synced, leaves an image that recovers to the same logged history. -/
+theorem C09_open_power_loss_bytes (so : StrictOrder kind.lt) (hH : Hash32 H) (cfg : Config)
+    (hk : cfg.kind = kind) (hn : cfg.N = N) (sys : Sys (KMap Bytes) Bytes) (hist : Recs Bytes)
+    (d0 : Disk) (c : DCfg H kind sz N sys hist d0) (hdown : sys.up = false) (hdur : Dur d0)
+    (e1 : List Ev) (pre : Bool) (hg : settingsGate cfg d0 = .ok (e1, pre))
+    (hsave : ∀ a, logical H kind (d0.applyAll e1) = .ok a → SaveOK kind a.idx ∧ a.highest + 1 < U64) :
+    ∀ j lose, ∃ a, logical H kind
+        ((d0.applyAll ((openBody H cfg d0).1.take j)).powerLoss lose) = .ok a ∧
+      IdxInv kind.lt sz a.idx ∧ run (stepM kind) [] hist = .ok a.idx.map := by
+  obtain ⟨acc, hl, _, _, hpre, _⟩ := open_sim H kind sz N so hH cfg hk hn sys hist d0 c hdown e1 pre hg hsave
+  have hl' : logical H cfg.kind (d0.applyAll e1) = .ok acc := by rw [hk]; exact hl
+  obtain ⟨ck, hck, hev, _⟩ := openBody_eq H cfg d0 e1 pre acc hg hl'
+  have hdisc : Disc (openBody H cfg d0).1 := by
+    rw [hev]
+    apply disc_append
+    · apply disc_append
+      · exact disc_of_clean _ (settingsGate_clean cfg d0 e1 pre hg)
+      · split
+        · trivial
+        · exact disc_of_clean _ (by
+            intro e he
+            simp only [List.mem_cons, List.not_mem_nil, or_false] at he
+            rcases he with rfl | rfl <;> rfl)
+    · rw [hck]
+      split
+      · exact checkpointScript_disc _ _ _
+      · trivial
+  intro j lose
+  obtain ⟨sysj, histj, hmem, cj⟩ := powerLoss_allPre H kind sz N _ _ d0 c.rel.wf hdur hdisc hpre j lose
+  obtain ⟨a, h1, h2, h3, _⟩ := cj.recovers H hH kind so sz N sysj histj _
+  simp only [List.mem_singleton] at hmem
+  subst hmem
+  exact ⟨a, h1, h3, h2⟩
+
+/-- **C09 (bytes), repeated power loss.** Cut a commit anywhere and lose power (every file keeps
+    only its synced prefix); run `open` on what is left, cut IT anywhere and lose power again; run
+    `open` once more, to completion: the log is read without panic, memory holds the old key map or
+    the old one with exactly this operation, and memory and disk are tied again. -/
+theorem C09_repeated_power_loss_bytes (so : StrictOrder kind.lt) (hH : Hash32 H) (m : Mem)
+    (sys : Sys (KMap Bytes) Bytes) (hist : Recs Bytes) (d : Disk)
+    (t : Tied H kind sz N m sys hist d) (hdur : Dur d) (hle : SyncLe d) (op : Op Bytes) (raw : RawOp)
+    (hraw : raw.WF) (hconv : fromRaw kind raw = some op) (hop : OpOK sz op)
+    (hwf : (⟨m.next, serWalOp raw⟩ : Rec).WF)
+    (hsave : ∀ idx' un, applyOp kind.lt m.idx op = .ok (idx', un) → SaveOK kind idx')
+    (hver : m.next + 1 < U64)
+    (cfg : Config) (hk : cfg.kind = kind) (hn : cfg.N = N)
+    (hsaveAny : ∀ (dd : Disk) a, logical H kind dd = .ok a → SaveOK kind a.idx ∧ a.highest + 1 < U64)
+    (j j2 : Nat) :
+    ∃ evs m', logAndApply H m d op raw = .ok (evs, m') ∧
+      let d1 := (d.applyAll (evs.take j)).powerLoss (fun _ => true)
+      ∀ e1 pre, settingsGate cfg d1 = .ok (e1, pre) →
+      let d2 := (d1.applyAll ((openBody H cfg d1).1.take j2)).powerLoss (fun _ => true)
+      ∀ e1' pre', settingsGate cfg d2 = .ok (e1', pre') →
+      ∃ m2 sys2 hist2, (∀ m' sc, (openBody H cfg d2).2 = .ok (m', sc) → m' = m2) ∧
+        (m2.idx.map = m.idx.map ∨ m2.idx.map = mapApply kind.lt m.idx.map op) ∧
+        Tied H kind sz N m2 sys2 hist2 (d2.applyAll (openBody H cfg d2).1) := by
+  obtain ⟨evs, m', hrun, hpre, _, _⟩ :=
+    logAndApply_sim H kind sz N so hH m sys hist d t op raw hraw hconv hop hwf hsave hver
+  have hM := t.mem_eq H kind sz N
+  have hstep : stepM kind m.idx.map (serWalOp raw) = .ok (mapApply kind.lt m.idx.map op) := by
+    have := C16_walop_roundtrip raw hraw []
+    rw [List.append_nil] at this
+    simp [stepM, this, hconv]
+  have hrun2 : run (stepM kind) [] (hist ++ [(m.next, serWalOp raw)]) =
+      .ok (mapApply kind.lt m.idx.map op) := by
+    rw [run_append, hM]
+    simp [run, hstep]
+  have hw := t.cfg.rel.wf
+  have hdisc := logAndApply_disc H m d op raw evs m' hrun
+  refine ⟨evs, m', hrun, ?_⟩
+  intro d1 e1 pre hg d2 e1' pre' hg'
+  -- first loss image: recoverable, fully synced
+  have r1 : Recoverable H kind sz N _ d1 := powerLoss_allPre H kind sz N _ evs d hw hdur hdisc hpre j _
+  have hle1 : SyncLe (d.applyAll (evs.take j)) := hle.applyAll d hw _
+  obtain ⟨dur1, sle1⟩ := dur_of_full_loss _ hle1
+  obtain ⟨sys1, hist1, hm1, c1⟩ := r1
+  have c1' := c1.crash H kind sz N sys1 hist1 d1
+  -- the first recovery, cut and hit by the second loss
+  have w1 : d1.WF := c1.rel.wf
+  have p2 := C09_open_power_loss_bytes H kind sz N so hH cfg hk hn _ hist1 d1 c1' rfl dur1 e1 pre hg
+    (fun a ha => hsaveAny _ a ha)
+  -- that image is itself recoverable to `hist1` (as a configuration, not only through `logical`)
+  obtain ⟨acc, hl, _, _, hpreO, _⟩ := open_sim H kind sz N so hH cfg hk hn _ hist1 d1 c1' rfl e1 pre hg
+    (fun a ha => hsaveAny _ a ha)
+  have hl' : logical H cfg.kind (d1.applyAll e1) = .ok acc := by rw [hk]; exact hl
+  obtain ⟨ck, hck, hev, _⟩ := openBody_eq H cfg d1 e1 pre acc hg hl'
+  have hdiscO : Disc (openBody H cfg d1).1 := by
+    rw [hev]
+    apply disc_append
+    · apply disc_append
+      · exact disc_of_clean _ (settingsGate_clean cfg d1 e1 pre hg)
+      · split
+        · trivial
+        · exact disc_of_clean _ (by
+            intro e he
+            simp only [List.mem_cons, List.not_mem_nil, or_false] at he
+            rcases he with rfl | rfl <;> rfl)
+    · rw [hck]
+      split
+      · exact checkpointScript_disc _ _ _
+      · trivial
+  have r2 : Recoverable H kind sz N [hist1] d2 :=
+    powerLoss_allPre H kind sz N _ _ d1 w1 dur1 hdiscO hpreO j2 _
+  -- the final recovery
+  obtain ⟨h2, hh2, acc2, _, hr2, _, m2, sys2, hm2, hmap2, t2⟩ :=
+    open_of_recoverable H kind sz N so hH cfg hk hn _ d2 r2 e1' pre' hg' (fun a ha => hsaveAny _ a ha)
+  simp only [List.mem_singleton] at hh2
+  subst hh2
+  refine ⟨m2, sys2, h2, hm2, ?_, t2⟩
+  rw [hmap2]
+  simp only [List.mem_cons, List.not_mem_nil, or_false] at hm1
+  rcases hm1 with e | e
+  · subst e; rw [hM] at hr2; injection hr2 with hr2; exact Or.inl hr2.symm
+  · subst e; rw [hrun2] at hr2; injection hr2 with hr2; exact Or.inr hr2.symm
+
 /-- a freshly created store (empty first segment, no index file yet) has fully synced WAL files
     as soon as its segment file is synced: non-vacuity of `Dur` together with `tied_fresh` -/
 example (d : Disk) (h1 : ∀ i x, d.get (.seg i) = some x → x = ⟨[], 0⟩)
